@@ -27,6 +27,7 @@ HEADER = ("From Coq Require Import List String ZArith. Import ListNotations.\n"
           "Definition SCH := schema_of class_aliases.\n")
 FUEL = 90
 K_NESTED = "C13:process_object:duplicate-id-nested-in-own-definition-accepted"
+K_TRANSFORM = "C13:update-not-observed:TransformedParameter:parameters-of-the-transform"
 
 TORCH_SIGS = {
     "torch.distributions.Normal": ["loc", "scale", "validate_args"],
@@ -1018,7 +1019,7 @@ def update_checks(model, M, rng, stats):
         if n not in tainted:
             tainted.add(n)
             todo += [cn for _, cn in heap[n][2]]
-    leaves = [n for n in M if heap[n][0] == "Parameter" and holders.get(n)]
+    leaves = [n for n in M if heap[n][0] == "Parameter" and holders.get(n) and n not in tainted]
     rng.shuffle(leaves)
     for n in leaves[:3]:
         p = M[n]
@@ -1031,11 +1032,11 @@ def update_checks(model, M, rng, stats):
                     up.add(h)
                     todo.append(h)
         evaluable = [h for h in up if heap[h][0] in ("ViewParameter", "CatParameter", "TransformedParameter",
-                                                     "Distribution")] if n not in tainted else []
+                                                     "Distribution")]
         for h in evaluable:                      # populate the caches before the update
             try:
                 cached_value(M[h])
-            except Exception:
+            except Exception:      # noqa
                 pass
         new = (p.tensor.detach().clone() * 1.5 + 0.25)
         hs = holders[n]
@@ -1052,12 +1053,12 @@ def update_checks(model, M, rng, stats):
         for h in evaluable:
             try:
                 want = fresh_value(M[h], torch)
-            except Exception:
+            except Exception:      # noqa
                 stats["not_evaluable"] += 1
                 continue
             try:
                 got = cached_value(M[h])
-            except Exception as e:
+            except Exception as e:      # noqa
                 return (f"C13:update-not-observed:{heap[h][0]}:raises",
                         f"after updating `{heap[n][1]}' holder `{heap[h][1]}' raises {type(e).__name__}")
             stats["evaluations"] += 1
@@ -1066,6 +1067,26 @@ def update_checks(model, M, rng, stats):
                         f"after updating `{heap[n][1]}' through `{heap[h0][1]}'.{s0} the value of "
                         f"`{heap[h][1]}' ({heap[h][0]}) is {got.tolist()} but recomputed from the leaves "
                         f"{want.tolist()}")
+    # last (it may leave stale values behind): a leaf that a TransformedParameter holds as a parameter of
+    # its transform, updated through the registry's instance, observed through that holder alone
+    direct = [(n, h, s) for n in M if heap[n][0] == "Parameter"
+              for h, s in holders.get(n, []) if heap[h][0] == "TransformedParameter" and s.startswith("parameters.")]
+    if direct:
+        n, h, s = direct[rng.randrange(len(direct))]
+        try:
+            cached_value(M[h])
+            M[n].tensor = M[n].tensor.detach().clone() * 1.5 + 0.25
+            stats["updates"] += 1
+            got, want = cached_value(M[h]), fresh_value(M[h], torch)
+            stats["evaluations"] += 1
+        except Exception:      # noqa
+            stats["not_evaluable"] += 1
+            return None
+        if got.shape != want.shape or not torch.allclose(got, want, rtol=1e-9, atol=1e-12, equal_nan=True):
+            return (K_TRANSFORM,
+                    f"`{heap[h][1]}' (TransformedParameter) holds parameter `{heap[n][1]}' as {s[11:]} of its "
+                    f"transform; after updating `{heap[n][1]}' its value is still {got.tolist()}, recomputed "
+                    f"{want.tolist()} (the holder never listens to the parameters of its transform)")
     return None
 
 
@@ -1397,21 +1418,21 @@ def run(tier, seed, replay=None):
     # ---- implementation: the real main on every specification (with and without its comments)
     t0 = time.time()
     from torchtree.core.utils import remove_comments, expand_plates, JSONParseError
-    outs, plain_outs, py_rc, py_exp = [], [], [], []
+    outs, plain_outs, py_prep = [], [], []
     for c in cases:
         outs.append(run_main(c["spec"], spec_path))
         plain_outs.append(run_main(c["plain"], spec_path) if c.get("plain") is not None else None)
         r = copy.deepcopy(c["spec"])
         remove_comments(r)
-        py_rc.append(r)
-        e = copy.deepcopy(r)
+        fp_rc = fp_json(r)
         try:
-            expand_plates(e)
+            expand_plates(r)
+            prep = (fp_rc, (1, fp_json(r)))
         except JSONParseError:
-            e = None
+            prep = (fp_rc, (2, 0))
         except Exception:      # noqa
-            e = None
-        py_exp.append(e)
+            prep = (fp_rc, (3, 0))
+        py_prep.append(prep)
     rep.timings["impl"] = round(time.time() - t0, 2)
 
     direct = {}
@@ -1447,9 +1468,22 @@ def run(tier, seed, replay=None):
     t0 = time.time()
     res = None
     try:
-        exprs = [coq_case(c, r, e) for c, r, e in zip(cases, py_rc, py_exp)]
-        res = C.run_cases(PID, HEADER, exprs, shard=max(8, len(exprs) // 16 + 1), rtype="Z")
+        # one set of interned strings per shard
+        nshard = max(8, len(cases) // 16 + 1)
+        res = []
+        jobs = []
+        for k in range(0, len(cases), nshard):
+            S = Interner()
+            exprs = [coq_case(c, S) for c in cases[k:k + nshard]]
+            jobs.append((HEADER + S.header(), exprs))
+        import concurrent.futures as cf
+        with cf.ThreadPoolExecutor(max_workers=16) as ex:
+            parts = list(ex.map(lambda a: C.run_cases(f"{PID}_s{a[0]:02d}", a[1][0], a[1][1], shard=100000, rtype="Z"),
+                                enumerate(jobs)))
+        for part in parts:
+            res.extend(part)
     except (RuntimeError, AssertionError, TypeError) as e:
+        res = None
         if proved:
             rep.violation("C13:model-eval-failed", str(e)[:300], dict(error=str(e)[-2000:]), False)
     rep.timings["model_eval"] = round(time.time() - t0, 2)
@@ -1460,24 +1494,27 @@ def run(tier, seed, replay=None):
     urng = random.Random(seed + 2)
     for ci, c in enumerate(cases if res is not None else []):
         o = outs[ci]
-        m_true, m_false, same_rc, same_exp = decode_case(res[ci])
+        m_true, m_false, fp_rc, fp_exp = decode_case(res[ci])
         tag = model_tag(m_true)
         dist[tag] = dist.get(tag, 0) + 1
         rep.case(c["spec"], nontrivial=len(o["events"]) >= 3,
                  sample=dict(spec=json.dumps(c["spec"])[:400], faults=c["faults"], model=tag, implementation=o["kind"]))
+        stats["rc_compared"] += 1
+        if fp_rc != py_prep[ci][0]:
+            rep.violation("C13:remove_comments:model-impl-differ",
+                          "remove_comments: the model's result differs from the implementation's",
+                          dict(spec=c["spec"]))
+            continue
+        stats["expand_compared"] += 1
+        if fp_exp != py_prep[ci][1] and not (fp_exp[0] == 3 and m_true["kind"] == "fuel"):
+            rep.violation("C13:expand_plates:model-impl-differ",
+                          f"expand_plates: model gives {fp_exp}, implementation {py_prep[ci][1]} "
+                          f"(1 = expanded document with this fingerprint, 2 = parse error, 3 = other exception)",
+                          dict(spec=c["spec"]))
+            continue
         if m_true["kind"] == "fuel" or m_false["kind"] == "fuel":
             undefined += 1
             continue
-        stats["rc_compared"] += 1
-        if same_rc != 1:
-            rep.violation("C13:remove_comments:model-impl-differ",
-                          "remove_comments: the model's result differs from the implementation's",
-                          dict(spec=c["spec"], implementation_result=py_rc[ci]))
-        stats["expand_compared"] += 1
-        if same_exp not in (1, 2, 3):
-            rep.violation("C13:expand_plates:model-impl-differ",
-                          f"expand_plates: model and implementation disagree (code {same_exp})",
-                          dict(spec=c["spec"], implementation_result=py_exp[ci]))
         recheck_fired = (m_true != m_false)
         detail = not recheck_fired
         stats["detail_compared"] += detail
